@@ -62,6 +62,11 @@ void BrentOneDimension::doInit(const ParameterList& params)
   else
   {
     bracket = OneDimensionOptimizationTools::inwardBracketMinimum(_xinf, _xsup, function(), getParameters());
+    // The inward search returns the two ends of the interval in a and b and the best inner point in c,
+    // whereas the code below (as the outward search) expects the inner point in b: exchange them.
+    BracketPoint inner = bracket.c;
+    bracket.c = bracket.b;
+    bracket.b = inner;
   }
 
   if (getVerbose() > 0)
